@@ -189,6 +189,12 @@ def gather_calls():
     return 0
 
 
+def key_pos(d, k):
+    """position of key k in the iteration order of d (-1 when absent)"""
+    ks = list(d)
+    return ks.index(k) if k in d else -1
+
+
 def dict_is_update(d, k, v):
     return d.get(k) is v
 
